@@ -294,6 +294,56 @@ def parse_backend_edges(b, text, s):
     return out
 
 
+DART_VIEW_ELEMS = ["u8", "i8", "u16", "i16", "u32", "i32", "u64", "i64", "f32", "f64", "DiplomatChar", "bool", "usize", "isize"]
+
+
+def dart_view_leg(rng, d, res):
+    """Dart hands borrowed primitive slices out as *views* of Rust memory (`asTypedList`), so the edge list of the method is only worth
+    something if the shared per-element-type helper class (`_SliceX._toDart(lifetimeEdges)`) attaches it to the view it returns. The helper
+    is generated once, from whichever slice of that element type the backend meets first (seed C04-g: an owned `Box<[T]>` met first left
+    the borrowed branch empty). One program per batch: owned and borrowed uses of a few element types in both meeting orders, as
+    parameters, returns and struct fields; every view-returning helper must use the edges it is given."""
+    elems = rng.sample(DART_VIEW_ELEMS, 4)
+    types = []
+    for k, el in enumerate(elems):
+        owned_first = rng.random() < 0.6
+        own = "    #[diplomat::opaque] pub struct %sOwner%d(pub u8);\n    impl %sOwner%d {\n        pub fn take(v: Box<[%s]>) -> u8 { unimplemented!() }\n%s    }\n" % (
+            "A" if owned_first else "Z", k, "A" if owned_first else "Z", k, el,
+            "        pub fn take_more(&self, n: u8, v: Box<[%s]>) -> u8 { unimplemented!() }\n" % el if rng.random() < 0.4 else "")     # (Option<Box<[T]>> aborts the Dart backend: known finding F4, C15)
+        form = rng.randrange(3)
+        if form == 0:
+            view = "    #[diplomat::opaque] pub struct View%d(pub u8);\n    impl View%d {\n        pub fn get<'a>(&'a self) -> &'a [%s] { unimplemented!() }\n    }\n" % (k, k, el)
+        elif form == 1:
+            view = ("    #[diplomat::out] pub struct ViewOut%d<'a> { pub s: DiplomatSlice<'a, %s>, pub n: u8 }\n    #[diplomat::opaque] pub struct View%d(pub u8);\n"
+                    "    impl View%d {\n        pub fn get<'a>(&'a self) -> ViewOut%d<'a> { unimplemented!() }\n    }\n" % (k, el, k, k, k))
+        else:
+            view = ("    #[diplomat::opaque] pub struct View%d(pub u8);\n    impl View%d {\n        pub fn pick<'a>(&self, x: &'a [%s]) -> Option<&'a [%s]> { unimplemented!() }\n    }\n" % (k, k, el, el))
+        types.append((el, owned_first, own + view))
+    dd = os.path.join(d, "dartview")
+    os.makedirs(dd, exist_ok=True)
+    src = os.path.join(dd, "lib.rs")
+    open(src, "w").write("#![allow(warnings)]\n#[diplomat::bridge]\npub mod ffi {\n    use diplomat_runtime::{DiplomatSlice, DiplomatChar};\n" + "".join(t for _, _, t in types) + "}\n")
+    rc, o, e = toolrun.run_tool("dart", src, os.path.join(dd, "out"), config_file=os.path.join(d, "cfg_dart.toml"))
+    kind, det = toolrun.classify_tool(rc, e)
+    if kind != "ok":
+        res["inconc"].append("dart view leg: tool %s: %s" % (kind, str(det)[:200]))
+        return
+    text = "".join(open(os.path.join(r_, f)).read() for r_, _, fs in os.walk(os.path.join(dd, "out")) for f in sorted(fs) if f.endswith(".dart"))
+    helpers = re.findall(r"final class (_Slice\w+) extends ffi\.Struct \{(.*?)\n\}\n", text, re.S)
+    res["st"]["dart_view_helpers_checked"] = res["st"].get("dart_view_helpers_checked", 0)
+    for name, body in helpers:
+        m = re.search(r"_toDart\(core\.List<Object> (\w+)[^)]*\)\s*\{(.*?)\n  \}", body, re.S)
+        if not m:
+            continue
+        edges, fn = m.group(1), m.group(2)
+        is_view = bool(re.search(r"final r = _data\.asTypedList\(_length\);", fn))
+        res["st"]["dart_view_helpers_checked"] += 1
+        uses = len(re.findall(r"\b%s\b(?!\.isEmpty)" % edges, fn))
+        if is_view and uses == 0:
+            res["viol"].append((None, "dart: %s._toDart returns a view of Rust memory (asTypedList) but never attaches the lifetime edges it is given: the collector may free "
+                                      "the owner while the view is in use (element types / owned-first in this program: %s)" % (name, [(el, of) for el, of, _ in types])))
+
+
 def main(tier, seed):
     chk = Check("C04", tier, seed, "exploration")
     thorough = tier == "thorough"
@@ -303,7 +353,7 @@ def main(tier, seed):
     hd = common.cargo_build_crate(common.instantiate_crate("hirdump"), "stable", bin_name="hirdump")
     stats = {"signatures": 0, "output_lifetimes": 0, "edges_expected": 0, "backend_edge_lists_checked": 0, "rustc_probe_pairs": 0, "rustc_model_disagreements": 0,
              "rejected_by_gate": 0, "struct_getters_checked": 0, "gc_calls": 0, "gc_objects_observed": 0, "gc_buffers_observed": 0, "gc_must_stay_alive_checked": 0,
-             "gc_collected_unborrowed": 0, "gc_calls_without_result_object": 0, "gc_released_after_results_dropped": 0, "gc_finalizer_exceptions_observed": 0, "struct_getters_evaluated": 0}
+             "gc_collected_unborrowed": 0, "gc_calls_without_result_object": 0, "gc_released_after_results_dropped": 0, "gc_finalizer_exceptions_observed": 0, "struct_getters_evaluated": 0, "dart_view_helpers_checked": 0}
     shapes = set()
 
     def one(bi):
@@ -527,6 +577,7 @@ def main(tier, seed):
                         if freed:
                             res["viol"].append((s, "js.abi=%s, V8: the wasm buffer of `%s` was handed to diplomat_free while the returned value (%s arm) is still alive and may borrow from it" % (abi, name, rec["mode"])))
             res["st"]["gc_collected_unborrowed"] += collected_unborrowed
+        dart_view_leg(rng, d, res)
         return res
 
     results = pmap(one, range(nbatch))
@@ -570,7 +621,7 @@ def main(tier, seed):
                 "rustc borrow probes (every batch in thorough, every fourth in quick; a disagreement is inconclusive, never a violation). Dynamic leg: every signature is "
                 "*called* through the generated JS (legacy and spec ABI) against a stub wasm module under node --expose-gc; only the returned object is kept, full GCs "
                 "are forced, and every argument object (WeakRef + destructor export) and argument buffer (diplomat_free log) the result may borrow from must still be alive, "
-                "for the Ok/Some arm and, where the Err type borrows, for the Err arm. distinct_nontrivial = distinct "
+                "for the Ok/Some arm and, where the Err type borrows, for the Err arm. Dart view leg: one program per batch with owned and borrowed primitive slices of four element types in both meeting orders; every shared slice helper whose _toDart returns a view (asTypedList) must attach the edges it is given. distinct_nontrivial = distinct "
                 "(#lifetimes, #bounds, parameter kinds, return form, impl lifetime, named self) shapes.")
     chk.extra = dict(stats, batches=nbatch)
     unc = [u for r in results for u in r.get("uncaught", [])]
